@@ -39,6 +39,7 @@ def run(F, rep, tier):
     node_span(F, rep)
     guard_location(F, rep)
     name_span(F, rep)
+    parse_error_dropped(F, rep)
 
 
 def _norm(e):
@@ -577,3 +578,89 @@ NAME_SPAN_EXEMPT = {
     ("assignable", "assignable.span"): "the span of the Access node itself, which the parser takes from the accessed identifier "
                                        "(see NODE-SPAN for how that span is obtained)",
 }
+
+
+PARSE_RETRY_EXEMPT = {
+    ("assignable_dot_or_variant", "assignable_variant"): "the same tokens are parsed again as a field access by assignable_dot, "
+                                                          "whose own error is the one reported",
+}
+
+
+def parse_error_dropped(F, rep):
+    """a speculative sub-parse (`match expression(ctx) { Ok(..) => .., Err(_) => <go on without it> }`) throws away the
+    real error - which may lie lines further down, inside the construct - and parsing resumes in front of the construct,
+    where some other token then gets blamed.  Whether an optional construct is present has to be decided from the next
+    token; once it is present its errors are the errors to report."""
+    n = 0
+    for fn in F.own_fns(["sylt_parser"]):
+        if "::test" in fn["_path"]:
+            continue
+        fname = last(fn["_path"])
+        for m in nodes(fn_body(fn)):
+            sub = None
+            dropped = False
+            if m.get("k") == "Match":
+                calls = [c for c in nodes(m["scrut"], "Call") if (callee(c) or "").startswith("sylt_parser::")
+                         and "Result<(sylt_parser::Context" in (c.get("ty") or "")]
+                if not calls:
+                    continue
+                sub = calls[0]
+                for arm in m["arms"]:
+                    for alt in _alts(arm["pat"]):
+                        if _is_err_wild(alt):
+                            from hir import diverges
+                            dropped = not diverges(arm["body"]) and not _returns_err(arm["body"])
+            elif m.get("k") == "If":
+                c = peel(m["c"])
+                if c.get("k") == "LetCond" and (pat_variant_of(c["pat"]) or "").endswith("Result::Ok"):
+                    calls = [x for x in nodes(c["init"], "Call") if (callee(x) or "").startswith("sylt_parser::")
+                             and "Result<(sylt_parser::Context" in (x.get("ty") or "")]
+                    if calls and m.get("e") is not None:
+                        sub = calls[0]
+                        from hir import diverges
+                        dropped = not diverges(m["e"]) and not _returns_err(m["e"])
+            if sub is None or not dropped:
+                continue
+            n += 1
+            key = "%s|%s" % (fname, last(callee(sub)))
+            ex = PARSE_RETRY_EXEMPT.get((fname, last(callee(sub))))
+            if ex is None and last(callee(sub)) == "parse_type":
+                # a type is written on one line: parse_type (and what it calls) never switches newline skipping on, so
+                # the error reported instead of the discarded one is on the same line
+                pt = F.fn("sylt_parser::parse_type")
+                if not any(c["m"] == "push_skip_newlines" for c in nodes(fn_body(pt), "MethodCall")):
+                    ex = "an optional type: types cannot span lines (parse_type never enables newline skipping), so the " \
+                         "error reported in place of the discarded one names the same line"
+            rep.ob("PARSE-ERROR-DROPPED", key, ex is not None,
+                   ("exempt: " + ex) if ex else
+                   "%s() tries %s() and, when that fails, discards its errors and carries on from before the construct: a "
+                   "syntax error inside the construct (possibly lines below) is reported somewhere else" % (fname, last(callee(sub))),
+                   line_of(m))
+    rep.floor("PARSE-ERROR-DROPPED", "speculative sub-parses", n, 1)
+
+
+def _alts(p):
+    from hir import pat_alternatives
+    return pat_alternatives(p)
+
+
+def pat_variant_of(p):
+    from hir import pat_variant
+    return pat_variant(p)
+
+
+def _is_err_wild(p):
+    """Err(_) / (Err(_), ..) patterns"""
+    from hir import pat_strip, pat_variant
+    p = pat_strip(p)
+    if p.get("k") == "Tuple":
+        return any(_is_err_wild(x) for x in p["pats"])
+    if (pat_variant(p) or "").endswith("Result::Err"):
+        subs = p.get("pats") or []
+        return all(pat_strip(x).get("k") == "Wild" for x in subs)
+    return False
+
+
+def _returns_err(e):
+    import tc
+    return tc.is_err_value(e)
